@@ -149,6 +149,7 @@ structure Acc where
   err : List String
   cache : List String
   k : Nat                         -- index of the next invocation
+  asked : Bool := false           -- some invocation of the case was to be killed (whether or not the process died)
 
 structure Obs where
   inp : List (List (Nat × Option Inputs))
@@ -172,8 +173,9 @@ def stepCase (o : Obs) (a : Acc) (ev : String) : Option Acc :=
   | "d" :: _ => some a
   -- a side effect of a command (harness only): what it changes reaches the model through the inputs every task SAW (INP)
   | "x" :: _ => some a
-  | ["r", _, force, _] => do
+  | ["r", _, force, spec] => do
     let force := force == "1"
+    let a := { a with asked := a.asked || (spec != "-" && !spec.startsWith "E" && !spec.startsWith "F") }
     let inp ← o.inp[a.k]?
     let ord ← o.ord[a.k]?
     let sel ← o.sel[a.k]?
@@ -226,7 +228,7 @@ def handle (line : String) : String :=
       pure ⟨inp, ord, sel, cr, strip (get "RES"), strip (get "EXEC"), ierr, strip (get "CACHE")⟩
     match obs, words case with
     | some o, _ :: evs =>
-      let a0 : Acc := ⟨World.init, [], [], [], [], [], [], [], 0⟩
+      let a0 : Acc := ⟨World.init, [], [], [], [], [], [], [], 0, false⟩
       match evs.foldlM (stepCase o) a0 with
       | some a =>
         -- the model observation is that of `runHistory` on the reconstructed history (same fold as above)
@@ -236,7 +238,8 @@ def handle (line : String) : String :=
         -- an invocation cut short by a write error is no more a completed run than a killed one
         let cut := o.cr.any fun c => match c with | .error _ => true | _ => false
         let v02 := if hasCrash oh || cut then "na" else b2s (c02 oh)
-        let v10 := if hasCrash oh then b2s (c10 oh) else "na"
+        -- a kill that was asked for (a signal sent from inside a command) counts even when the process survived it
+        let v10 := if hasCrash oh || a.asked then b2s (c10 oh) else "na"
         let v14 := if hasForced oh then b2s (c14 oh) else "na"
         s!"{model} || C01={v01} C02={v02} C10={v10} C14={v14}"
       | none => "BAD-CASE || " ++ allFail
